@@ -17,6 +17,22 @@ pub fn run(cfg: &Config) -> i32 {
 	if let Err(m) = pf::selftest_reference(cfg) {
 		total.inconclusive.push(format!("oracle self-test failed: {}", m))
 	}
+	// the named option records: strict (the default) relaxes nothing, flexible relaxes both escapes
+	{
+		use json_syntax::parse::Options;
+		let (s, d, f) = (Options::strict(), Options::default(), Options::flexible());
+		total.evaluations += 1;
+		if s.accept_truncated_surrogate_pair || s.accept_invalid_codepoints || d.accept_truncated_surrogate_pair || d.accept_invalid_codepoints || !f.accept_truncated_surrogate_pair || !f.accept_invalid_codepoints {
+			total.violation("C12:named-options", "Options::strict() / default() / flexible() do not carry the documented flags".to_string(), serde_json::json!({"sub": "options"}));
+		}
+		// a document with both kinds of lone surrogate is read by flexible() as by both flags set
+		let doc = "[\"\\ud800\",\"\\udc00x\"]";
+		let a = json_syntax::Parse::parse_str_with(doc, f).map(|(v, _): (json_syntax::Value, _)| v).ok();
+		let b = crate::real::parse_str_with(doc, crate::oracle::rfc8259::Opts { truncated: true, invalid: true }).ok().map(|x| x.0);
+		if a.is_none() || a != b {
+			total.violation("C12:named-options", format!("Options::flexible() reads `{}` as {:?}, both flags set as {:?}", doc, a, b), serde_json::json!({"sub": "options"}));
+		}
+	}
 	let mut add = |total: &mut Report, (r, _): (Report, Vec<u8>)| total.merge(r);
 	add(&mut total, pf::fam_surrogates(cfg, flags, if thorough { 6 } else { 4 }));
 	add(&mut total, pf::fam_sigma(cfg, flags, "sigma-c-strings", &crate::gen::SIGMA_C, if thorough { 5 } else { 4 - small }));
